@@ -593,6 +593,19 @@ func runC05Crash(c bson.D, x *Ctx) error {
 		if len(r.journal) == 0 || r.journal[len(r.journal)-1] != "END" {
 			return fmt.Errorf("%s on %s (file syscall %d): the child did not finish: %v", errno, call.name, k+1, r.journal)
 		}
+		// the error must have been delivered to the call it was meant for:
+		// strace counts "when=" per thread, and the ordinal was taken from the
+		// undisturbed run
+		delivered := false
+		for _, tc := range r.trace {
+			if strings.Contains(tc.line, "(INJECTED)") && tc.name == call.name && tc.ordinal == call.ordinal {
+				delivered = true
+			}
+		}
+		if !delivered {
+			x.Class("injection-not-delivered-as-planned")
+			continue
+		}
 		j := call.commit
 		doneLine := ""
 		states := map[int]string{}
